@@ -243,6 +243,24 @@ theorem rejects_slice_of_proto_slice {cfg : Cfg} {t : TyDef} {c : Ty} (tag : Str
     build cfg (.slice t) tag = .err :=
   build_slice_protoslice tag hne hb hp
 
+/-- a map whose values are (pointers to) slices in the protobuf repeated form —
+`map[string][]string`, `map[K][]struct`, `map[K]*[]string` under
+ProtoCompatibleArrays: rejected (repair e18fcf6: a map entry holds ONE value
+field, the repeated form writes one per element; such maps failed to decode or
+silently kept the first element of each value). -/
+theorem rejects_map_of_proto_slice {cfg : Cfg} (k : TyDef) {v : TyDef} {vc : Ty} (tag : String)
+    (hb : build cfg v "" = .ok vc) (hp : vc.isProtoSlice = true) :
+    build cfg (.map k v) tag = .err :=
+  build_map_protoslice k tag hb hp
+
+example : build {protoArrays := true} (.map (.basic .str) (.slice (.basic .str))) "" = .err := rfl
+example : build {protoArrays := true} (.map (.basic .str) (.ptr (.slice (.basic .str)))) "proto" = .err := rfl
+/-- … the same map in default mode, and a map of packed slices in proto mode, stay accepted. -/
+example : build {} (.map (.basic .str) (.slice (.basic .str))) ""
+    = .ok (.map (.str false) (.lslice (.str false)) false) := rfl
+example : build {protoArrays := true} (.map (.basic .str) (.slice (.basic (.int 64)))) "proto"
+    = .ok (.map (.str false) (.vslice (.int 64)) true) := rfl
+
 /-- `[][]string` and `[]*[]string` under ProtoCompatibleArrays, concretely. -/
 example : build {protoArrays := true} (.slice (.slice (.basic .str))) "" = .err := rfl
 example : build {protoArrays := true} (.slice (.ptr (.slice (.basic .str)))) "" = .err := rfl
